@@ -1,5 +1,5 @@
 """C18 -- detection depends on the image only through the documented threshold."""
-from contracts import locate as lc, collections as co
+from contracts import locate as lc, collections as co, otsu
 from pyvc.bounded import Bounded, ContractSampling
 
 LEVEL = "proof"
@@ -8,13 +8,16 @@ LEVEL_TEXT = ("locate_droplets is verified (whole body, the conversion loop cut 
               "mean / threshold_otsu(data), on the field's grid; the result is a function of that mask only (candidates come from the mask, are "
               "converted one-to-one, filtered by Emulsion.remove_small before and after refinement). remove_small is verified as the "
               "order-preserving filter radius > minimal_radius (nothing above it is dropped, everything returned is above it). Affine "
-              "covariance of the rules is a z3 lemma over this contract. Otsu's rule itself (histogram / cumulative sums) is not under "
-              "contract: it is compared with the brute-force definition of the between-class variance (bounded stand-in).")
+              "covariance of the rules is a z3 lemma over this contract. Otsu's rule itself IS under contract (threshold_otsu, default and given number of bins): against assumed numpy contracts "
+              "(histogram, cumsum = prefix sums, argmax) the returned value is the CENTRE of a bin idx that maximises, over the n-1 admissible splits, "
+              "the array whose entry k is proved equal to W1(k) * W2(k+1) * (M1(k) - M2(k+1))**2 - the defining between-class variance with "
+              "weights / means of the bins 0..k and k+1..n-1 (the four cumulative sums are identified by their summands; reversed prefix sum == "
+              "suffix sum is a base/step lemma); precondition: non-constant data. The brute-force comparison stays as a bounded cross-check.")
 LEVEL_NOTE = ("A-FP; assumed: locate_droplets_in_mask depends on the mask only (its analysis is C01/C02), refine_droplets returns one droplet "
               "per candidate, Emulsion(list) copies in order, numpy min/max/mean are covariant under positive affine maps, ScalarField wraps "
-              "its data; threshold_otsu bounded only (1000 arrays vs brute force, objective value compared, never the index)")
-CONTRACTS = [c.ident for c in (lc.LocateDroplets(), co.RemoveSmall())]
-LEMMAS = ["threshold-rules-are-affine-covariant"]
+              "its data; numpy histogram / cumsum / argmax contracts; monotone prefix sums and equality of prefix sums with equal summands (inductive, trusted); threshold_otsu additionally cross-checked on 1000 arrays vs brute force (objective value compared, never the index)")
+CONTRACTS = [c.ident for c in (lc.LocateDroplets(), co.RemoveSmall(), otsu.ThresholdOtsu())]
+LEMMAS = ["threshold-rules-are-affine-covariant", "reversed-cumsum-of-reversed-is-the-suffix-sum"]
 
 
 class OtsuAndAffine(Bounded):
